@@ -1,8 +1,9 @@
 (* C04 - The routing table mirrors what each node advertises.
-   Only statements here; proofs in ClusterP/SyncerP.v. Model: Cluster/Syncer.v
-   (server/cluster/state.go, server/gossip/syncer.go) fed by the events of Gossip/Apply.v. *)
+   Only statements here; proofs in ClusterP/SyncerP.v, ClusterP/FoldP.v (and C02 / C14 for the composition).
+   Model: Cluster/Syncer.v (server/cluster/state.go, server/gossip/syncer.go) fed by the events of Gossip/Apply.v. *)
 From Coq Require Import List String NArith ZArith Bool.
-From Piko Require Import Base.Maps Base.Strs Gossip.Types Cluster.Syncer ClusterP.SyncerP.
+From Piko Require Import Base.Maps Base.Strs Gossip.Types Gossip.Local Gossip.Apply Cluster.Syncer.
+From Piko Require Import GossipP.LocalP GossipP.WatchP ClusterP.SyncerP ClusterP.FoldP.
 Import ListNotations.
 Open Scope string_scope. Open Scope list_scope.
 
@@ -20,10 +21,81 @@ Theorem C04_lookup_complete :
   lookup ep (cn_eps n) = Some c -> (0 < c)%Z -> In (cn_id n) (lookup_candidates s ep).
 Proof. exact lookup_candidates_complete. Qed.
 
-(* PARTIAL (named): C04_fold (the syncer's fold of watcher events keeps endpoints = visible endpoint: entries,
-   addresses sticky, status = flags) and C04_caught_up (version(view o x) = version(own x) => routing o x =
-   advertised x) are checked by the monitor and the correspondence on every run; their Coq proofs build on C14 and
-   C02 and are in progress. *)
+(* The syncer's fold: for EVERY sequence of watcher events that is well formed with respect to the watcher's own
+   fold (joins of unknown nodes only, reachability flips of non-left nodes, immutable announced addresses, numeric
+   endpoint counts - what the gossip layer emits for honest owners), the routing state stays in the relation `rel`
+   with the shadow: every node of the shadow is promoted (in the table with the announced addresses, status = flags,
+   endpoints = parsed visible endpoint: entries), pending (an address still missing), or dropped (left while pending);
+   nodes outside the shadow are in neither table. Join, leave, (un)reachable, expired, upsert and delete of any key
+   are covered, including re-versioned addresses after a compaction (ignored once promoted) and deletions announced
+   only through a compaction marker. *)
+Theorem C04_fold :
+  forall (addr_of : string -> string * string),
+  (forall id, fst (addr_of id) <> "" /\ snd (addr_of id) <> "") ->
+  forall evs s sh, rel addr_of s sh -> pend_wf s -> evs_ok addr_of sh evs ->
+  rel addr_of (on_events s evs) (fold_events sh evs) /\ pend_wf (on_events s evs).
+Proof. intros addr_of Hne evs s sh. exact (fold_rel addr_of Hne evs s sh). Qed.
+
+Theorem C04_fold_from_start :
+  forall addr_of id proxy admin, rel addr_of (new_sstate id proxy admin) [] /\ pend_wf (new_sstate id proxy admin).
+Proof. exact rel_init. Qed.
+
+(* consequences for the table itself *)
+Theorem C04_routing_mirrors_visible :
+  forall addr_of s sh id sn, rel addr_of s sh -> id <> ss_local s -> lookup id sh = Some sn ->
+  lookup "proxy_addr" (sn_kv sn) <> None -> lookup "admin_addr" (sn_kv sn) <> None -> sn_left sn = false ->
+  exists n, lookup id (ss_nodes s) = Some n /\ cn_proxy n = fst (addr_of id) /\ cn_admin n = snd (addr_of id) /\
+            cn_status n = status_of sn /\ eps_agree n sn.
+Proof. exact routing_mirrors_visible. Qed.
+
+Theorem C04_routing_entries_sound :
+  forall addr_of s sh id n, rel addr_of s sh -> id <> ss_local s -> lookup id (ss_nodes s) = Some n ->
+  exists sn, lookup id sh = Some sn /\ cn_status n = status_of sn /\ eps_agree n sn /\
+             cn_proxy n = fst (addr_of id) /\ cn_admin n = snd (addr_of id).
+Proof. exact routing_entries_sound. Qed.
+
+(* "Whenever a node has caught up with everything another node has published, its routing table lists exactly that
+   node's proxy and admin address and exactly its active endpoints with their upstream counts; endpoints the owner
+   has withdrawn are gone": composition of (1) C02_world_caught_up - a caught-up view V holds exactly the owner's
+   entries O, (2) C14 - the watcher's fold `sh` agrees with the observer's gossip state c, (3) C04_fold - the routing
+   state is in `rel` with `sh`. The routing entry's endpoint map is then the owner's CURRENT live endpoint: entries,
+   parsed - withdrawn (deleted or compacted-away) endpoints are absent because they are not live at the owner. *)
+Theorem C04_caught_up :
+  forall addr_of s sh c x V O,
+  rel addr_of s sh -> agree sh c -> x <> ss_local s -> x <> c_local c ->
+  lookup x (c_nodes c) = Some V ->
+  (forall k, lookup k (n_ents V) = lookup k (n_ents O)) ->          (* caught up: C02_world_caught_up *)
+  live O "proxy_addr" <> None -> live O "admin_addr" <> None -> n_left V = false ->
+  exists n, lookup x (ss_nodes s) = Some n /\ cn_proxy n = fst (addr_of x) /\ cn_admin n = snd (addr_of x) /\
+            cn_status n = (if n_unreach V then SUnreach else SActive) /\
+            forall ep, lookup ep (cn_eps n) = match live O (ep_key ep) with Some v => atoi v | None => None end.
+Proof.
+  intros addr_of s sh c x V O Hrel Hag Hxs Hxc HV Heq Hp Ha Hl.
+  specialize (Hag x Hxc). rewrite HV in Hag. destruct (lookup x sh) as [sn|] eqn:Esn; [|contradiction].
+  destruct Hag as [A1 [A2 A3]].
+  assert (Hlive : forall k, live V k = live O k). { intros k. unfold live. rewrite Heq. reflexivity. }
+  destruct (routing_mirrors_visible addr_of s sh x sn Hrel Hxs Esn) as [n [H1 [H2 [H3 [H4 H5]]]]].
+  - rewrite A3, Hlive. exact Hp.
+  - rewrite A3, Hlive. exact Ha.
+  - congruence.
+  - exists n. split; [exact H1|]. split; [exact H2|]. split; [exact H3|]. split.
+    + rewrite H4. unfold status_of. rewrite A1, A2, Hl. reflexivity.
+    + intros ep. rewrite (H5 ep), A3, Hlive. reflexivity.
+Qed.
+
+(* non-vacuity: a node joins, announces both addresses and two endpoints, withdraws one *)
+Example C04_example :
+  let evs := [EJoin "b"; EUpsert "b" "proxy_addr" "10.1.0.2:8000"; EUpsert "b" "endpoint:e" "2";
+              EUpsert "b" "admin_addr" "10.1.0.2:8001"; EUpsert "b" "endpoint:f" "1"; EDelete "b" "endpoint:e"] in
+  let s := on_events (new_sstate "a" "10.1.0.1:8000" "10.1.0.1:8001") evs in
+  lookup_candidates s "f" = ["b"] /\ lookup_candidates s "e" = [].
+Proof. vm_compute. auto. Qed.
 
 Print Assumptions C04_lookup_sound.
 Print Assumptions C04_lookup_complete.
+Print Assumptions C04_fold.
+Print Assumptions C04_fold_from_start.
+Print Assumptions C04_routing_mirrors_visible.
+Print Assumptions C04_routing_entries_sound.
+Print Assumptions C04_caught_up.
+Print Assumptions C04_example.
